@@ -31,6 +31,24 @@ from .sync import sync_jobs
 logger = logging.getLogger(__name__)
 
 
+class _StatePointJSONEncoder(SyncedCollectionJSONEncoder):
+    """Encode synced collections by their current content.
+
+    The base encoder serializes the in-memory data of a synced collection as
+    it is, which is empty for a collection (e.g. a job document) that has not
+    been loaded from its file yet.
+    """
+
+    def default(self, o):  # noqa: D102
+        if isinstance(o, SyncedCollection):
+            try:
+                return o()
+            except TypeError:
+                # A collection without a backing file exists in memory only.
+                pass
+        return super().default(o)
+
+
 def calc_id(statepoint):
     """Calculate and return a hash value for the given statepoint.
 
@@ -48,7 +66,7 @@ def calc_id(statepoint):
     str
         Encoded hash in hexadecimal format.
     """
-    blob = json.dumps(statepoint, cls=SyncedCollectionJSONEncoder, sort_keys=True)
+    blob = json.dumps(statepoint, cls=_StatePointJSONEncoder, sort_keys=True)
     m = hashlib.md5()
     m.update(blob.encode())
     return m.hexdigest()
